@@ -25,7 +25,11 @@ structure RepOps where
   shlConstTy : Ty → Nat → Ty
 
 /-- `power_value<S, k, radix>()` for a built-in integer `S`, `k ≥ 0`.
-Ill-formed (constant evaluation overflows / `static_assert`) when the power does not fit. -/
+Ill-formed (`static_assert`) when the power does not fit the (promoted) type in which it is computed:
+radix 2 is `decltype(…){1} << constant<k>`; every other radix multiplies `k` times by the `int`
+radix, and since the repair of `C04.unsigned_power_value_wraps` each step asserts
+`lesser_power <= numeric_limits<decltype(lesser_power * Radix)>::max() / Radix` (the lesser power is a
+`constexpr` variable), for signed and unsigned types alike. -/
 def powerValueInt (S : IntTy) (k : Nat) (radix : Nat) : Res TV :=
   if k = 0 then .ok (S, 1)
   else if radix = 2 then
@@ -36,18 +40,54 @@ def powerValueInt (S : IntTy) (k : Nat) (radix : Nat) : Res TV :=
     let rec go : Nat → TV → Res TV
       | 0, acc => .ok acc
       | n+1, acc =>
+        -- `T` = decltype(lesser_power * Radix); the bound and the comparison are built-in operators too
+        let T := usualArith acc.1 i32
+        match cBin .div (T, T.max) (i32, (radix : Int)) with
+        | .ok bound =>
+          if cCmp .le acc bound then
+            match cBin .mul acc (i32, (radix : Int)) with
+            | .ok v => go n v
+            | _ => .ill "power_value: constant evaluation overflows"
+          else .ill "power_value: attempted operation will result in overflow"
+        | _ => .ill "power_value: the assertion is not a constant expression"
+    go k (S, 1)
+
+/-- `power_value` **as found** (before the repair): no assertion in the repeated multiplication, so an
+unsigned (promoted) type wraps silently; a signed overflow is a constant-evaluation error. -/
+def powerValueIntOrig (S : IntTy) (k : Nat) (radix : Nat) : Res TV :=
+  if k = 0 then .ok (S, 1)
+  else if radix = 2 then
+    let P := promote S
+    if k < P.digits then .ok (P, 2^k) else .ill "power_value: attempted operation will result in overflow"
+  else
+    let rec go : Nat → TV → Res TV
+      | 0, acc => .ok acc
+      | n+1, acc =>
         match cBin .mul acc (i32, (radix : Int)) with
         | .ok v => go n v
         | _ => .ill "power_value: constant evaluation overflows"
     go k (S, 1)
 
-/-- `cnl::scale<k, radix>` on a built-in integer -/
+/-- `cnl::scale<k, radix>` on a built-in integer.  `k < 0`: since the repair of
+`C09.wrapped_power_is_int_min` the divisor is a `constexpr` variable and `default_scale` asserts
+`0 < divisor`; for a built-in `S` a well-formed power is positive (`ScaledP.powerValueInt_pos`), so the
+assertion never fails there (it matters where the power is computed with a wrapper's operators:
+`Layered.defaultScaleWith`, `RoundWrap.convert`). -/
 def scaleInt (k : Int) (radix : Nat) (s : TV) : Res TV :=
   if k ≥ 0 then do
     let p ← powerValueInt s.1 k.toNat radix
     cBin .mul s p
   else do
     let p ← powerValueInt s.1 (-k).toNat radix
+    if cCmp .gt p (i32, 0) then cBin .div s p else .ill "scale: attempted operation will result in overflow"
+
+/-- `cnl::scale` **as found** (over `powerValueIntOrig`, no assertion on the divisor) -/
+def scaleIntOrig (k : Int) (radix : Nat) (s : TV) : Res TV :=
+  if k ≥ 0 then do
+    let p ← powerValueIntOrig s.1 k.toNat radix
+    cBin .mul s p
+  else do
+    let p ← powerValueIntOrig s.1 (-k).toNat radix
     cBin .div s p
 
 def liftTV (r : Res TV) : Res Num := r.map (fun v => (Ty.int v.1, v.2))
